@@ -456,7 +456,7 @@ def verify_contracts(contract_files, only=None, program: Program = None, jobs: i
         raise core.CheckerError("class schema is stale: " + "; ".join(probs))
     spec = load_contracts(contract_files)
     quals = [q for q, c in spec.contracts.items()
-             if (not only or only in q) and (prop is None or prop in c.properties)]
+             if (not only or only in q) and (prop is None or prop in c.properties) and not c.assumed]
     for q in quals:
         if P.lookup(q) is None:
             raise core.CheckerError(f"contract names {q}, which no longer exists in /repo")
